@@ -581,6 +581,49 @@ class PathKind(Kind):
                 ("polygons_full.pop", lambda o: o.polygons_full.pop()), ("paths.append", lambda o: o.paths.append(np.array([0])))]
 
 
+class EntityKind(Kind):
+    """A path entity on its own: Entity.copy is an anchored mechanism that Path.copy does not go through
+    (it deep copies the entity list), so it is reached directly.  A plain copy.copy of an entity is not demanded."""
+    routes = ("copy", "copy.deepcopy")
+    manual_reads = ("to_dict()", "closed", "nodes", "end_points", "is_valid", "layer", "metadata", "color", "copy()",
+                    "explode()", "reverse()", "_bytes()", "__hash__()", "points")
+
+    def __init__(self, which):
+        self.which = which
+        self.name = "entity_" + which
+
+    def make(self, tm):
+        from trimesh.path.entities import Arc, Line, Text
+        if self.which == "line":
+            e = Line([0, 1, 2, 5], color=[255, 0, 0, 255], layer="L1")
+        elif self.which == "arc":
+            e = Arc([4, 5, 6], closed=True, layer="L2", color=[0, 9, 0, 255])
+        else:
+            e = Text(origin=0, text="hi", height=2.0, vector=1, align=("center", "top"), layer="T", color=[1, 2, 3, 255])
+        set_meta(e)
+        return e
+
+    def project(self, tm, e):
+        return {"ent": ent_proj(e), "dict": jmeta(e.to_dict())}
+
+    def edits(self, tm):
+        def rev(o):
+            o.points = o.points[::-1] + 1
+
+        def inplace(o):
+            o.points[0] += 3
+
+        def color_inplace(o):
+            o.color[1] += 5
+
+        def layer(o):
+            o.layer = "N%d" % len(str(o.layer))
+        param = [("color[1]+=", color_inplace), ("layer=", layer)]
+        if self.which == "text":
+            param.append(("text=", lambda o: setattr(o, "text", o.text + "!")))
+        return {"geom": [("points=", rev), ("points[0]+=", inplace)], "meta": meta_edits(), "param": param}
+
+
 class CloudKind(Kind):
     manual_reads = ("kdtree", "convex_hull", "colors", "visual.vertex_colors", "__hash__()", "hash()", "copy()",
                     "bounding_box", "bounding_box_oriented", "query([[0, 0, 0]])")
@@ -872,7 +915,7 @@ def all_kinds():
             # audit extension: states the statement names that were not instantiated before
             MeshKind("attrs"), MeshKind("normals"), MeshKind("pbr"), MeshKind("texattr"), PrimKind("box_colored"),
             PathKind(2, rich=True), CloudKind(colored=False), SceneKind("mixed"), SceneKind("repair"), SceneKind("camera"),
-            SceneKind("lights"), VoxelKind("sparse"), VoxelKind("brle")]
+            SceneKind("lights"), VoxelKind("sparse"), VoxelKind("brle"), EntityKind("line"), EntityKind("arc"), EntityKind("text")]
 
 
 N_OLD_KINDS = 15
@@ -1160,7 +1203,8 @@ def main(argv):
     for k in kinds:
         XREADS[k.name] = discover_reads(tm, k)
     nreads = {k.name: len(XREADS[k.name]) for k in kinds}
-    if min(nreads.values()) < 15 or nreads["mesh_face_color"] < 70 or nreads["scene"] < 35:
+    if min(n for k, n in nreads.items() if not k.startswith("entity_")) < 15 or nreads["mesh_face_color"] < 70 \
+            or nreads["scene"] < 35 or min(nreads.values()) < 8:
         raise MachineryError("catalogue of public values nearly empty: %s" % nreads)
     quick = tier == "quick"
     work = []
